@@ -279,6 +279,8 @@ def oracle(case, obs):
     elif after_head:
         return "bytes follow the head of a request without a body: %r" % after_head[:100]
     want_method = case["method"].upper() if case["level"] == 3 else case["method"]
+    if not case["method"].isascii():
+        return "the non-ASCII method %r was written, as the token %r" % (case["method"], method)
     try:
         if method != want_method.encode("ascii"):
             return "the request line's method is %r, requested %r" % (method, want_method)
@@ -380,6 +382,8 @@ def oracle_tunnel(case, obs, sent):
 
 
 def signature(case, obs, msg):
+    if (msg or "").startswith("the non-ASCII method") and case["level"] == 3:
+        return {"kind": "non-ascii-method-upper-cased-to-an-ascii-token"}
     if case.get("then") and "after a failed request()" in (msg or ""):
         return {"kind": "stale-buffer-after-failed-request"}
     return {"msg": (msg or "")[:50]}
@@ -409,7 +413,14 @@ def histogram(cases, obss):
 
 
 # ---------------------------------------------------------------- generators
-METHODS = ["GET", "POST", "get", "PATCH", "M-SEARCH", "X_Y.Z", ""]
+METHODS = ["GET", "POST", "get", "PATCH", "M-SEARCH", "X_Y.Z", "", "po\u017ft", "GE\u0131", "\ufb06op", "ma\u00df"]
+UPPER_TO_ASCII = {0xdf: "SS", 0x131: "I", 0x17f: "S", 0xfb00: "FF", 0xfb01: "FI", 0xfb02: "FL", 0xfb03: "FFI", 0xfb04: "FFL", 0xfb05: "ST", 0xfb06: "ST"}
+
+
+def precondition():
+    """the model's table of non-ASCII code points whose str.upper() is pure ASCII is this interpreter's"""
+    t = {cp: chr(cp).upper() for cp in range(128, 0x110000) if not (0xd800 <= cp < 0xe000) and chr(cp).upper().isascii()}
+    assert t == UPPER_TO_ASCII, t
 PATHS = ["/", "/a/b", "/a%20b", "", "/x?y=1", "/x#frag", "/é"]
 NAMES = ["X-A", "Accept", "Host", "User-Agent", "Accept-Encoding", "x-b", "Cookie", "X-C"]
 VALUES = ["1", "a b", "", "text/html", "é", "a\tb", "@@@SKIP_HEADER@@@", "a\r\n b", "a\n\tb"]
@@ -464,7 +475,11 @@ def rand_body(rng):
 
 
 def cases(rng, tier):
+    precondition()
     out = []
+    for level in (1, 2, 3):
+        for m in METHODS[7:] + ["\u017f", "\ufb03", "s\u0131"]:
+            out.append({"level": level, "method": m, "url": "/a", "headers": []})
     # bodies: every text as bytes, as str and as a chunk of an iterable, at every level
     for level in (1, 2, 3):
         for method in ("POST", "GET"):
